@@ -120,6 +120,26 @@ def run(ctx):
         return ('A,' if f[0] == 'and' else 'O,') + built(f[1]) + ',' + built(f[2])
     bforms = [gen_formula(rng, rng.randint(0, 4)) for _ in range(1500 if ctx.quick() else 40000)]
     bforms = [(f, '@' + built(f)) for f, _ in bforms]
+    # formulas inside dozens of redundant parentheses: the work must stay proportional to the length (a parser that parses a
+    # group twice doubles it per level); run apart, under a deadline, so that the input that never comes back is named
+    deep = []; dout = []; dmod = []; stuck = None
+    for d in (8, 16, 24, 32, 48, 64, 200):
+        grp = []
+        for _ in range(2):
+            _, f0 = gen_formula(rng, rng.randint(0, 2)); grp.append('(' * d + f0 + ')' * d)
+        grp.append('A::b && ' + '(' * d + 'C::d || E::f' + ')' * d + ' && G::h')
+        for t in grp:       # one process per input: the one that does not come back is named
+            o = vf.run_lines(vf.harness_bin('pdriver'), [vf.hexs(t)], timeout=20)[0]
+            deep.append(t)
+            if len(o) != 1: stuck = t; break
+            dout.append(o[0])
+        if stuck: break
+    dmod = vf.run_lines(vf.OCAML + '/driver', [vf.hexs(t) for t in deep], args=['fixed'], timeout=120)[0]
+    ctx.evaluations += len(deep)
+    ctx.ob('correspondence', f'{len(deep)} formulas nested in 8 to 200 redundant parentheses: each parsed within 20 s, same answer as the model', stuck is None and dout == dmod[:len(dout)], f'answers: {len(dout)} of {len(deep)}')
+    if stuck is not None:
+        t = stuck
+        vf.violation(ctx, f'AccessPolicy::parse did not return within 20 s (or the process died) on a {len(t)}-byte formula nested in {len(t) - len(t.lstrip("("))} redundant parentheses', {'input_utf8': t, 'input_hex': vf.hexs(t), 'impl': 'no answer within 20 s'})
     all_inputs = corpus + strings + [s for _, s in forms] + junk + broken
     lines = [vf.hexs(s) for s in all_inputs]
     impl, model = run_pair(lines)
